@@ -73,6 +73,10 @@ def signature(fn, reason):
         kind = "harness-internal:" + kind
     if fn == "END" and kind == "leak":          # a leak has no entry point: the allocating GEOS function names the defect
         kind = "leak:" + where
+    if kind.startswith(("ubsan-", "asan-")) and where.startswith("geos::"):
+        # a sanitizer report inside the library: the defect is where it happens, whatever entry point led there (the same
+        # precision-scale overflow is reachable through a dozen overlay / buffer calls); the class, not the exact frame
+        return {"kind": kind, "whereClass": where.rsplit("::", 1)[0]}
     return {"fn": fn, "kind": kind}
 
 
@@ -171,7 +175,7 @@ class Runner:
         calls = split_calls(line)
         body = [c for c in calls[1:] if not c.startswith("END")]
         mk = lambda cs: "SEQ ; " + " ; ".join(cs)
-        if sig["fn"] != "END" and body:
+        if sig.get("fn") != "END" and body:
             kk = min(k, len(body) - 1)
             cur = body[:kk + 1]
             clo = dependency_closure(body, kk)
